@@ -4,6 +4,7 @@ package main
 // outputs and state deltas are written as a Coq file that the model checks.
 
 import (
+	"time"
 	"encoding/json"
 	"fmt"
 	"os"
@@ -755,6 +756,34 @@ func c12InvalidRequests() []map[string]interface{} {
 			}
 			if _, err := child.Get("z"); err == nil {
 				bad(how + " with the zero reflect.Value created a binding")
+			}
+		})
+	}
+	// a binding whose value reflect only lets one look at (taken from an unexported struct field): copying the scope neither
+	// panics nor leaves its lock held
+	for _, deep := range []bool{false, true} {
+		deep := deep
+		guard(fmt.Sprintf("copy of a scope holding a value from an unexported field (deep=%v)", deep), func() {
+			e := env.NewEnv().NewEnv()
+			e.DefineValue("f", reflect.ValueOf(&struct{ x int }{x: 3}).Elem().Field(0))
+			func() {
+				defer func() {
+					if p := recover(); p != nil {
+						bad(fmt.Sprintf("copying a scope that holds a value taken from an unexported field panics (deep=%v): %v", deep, p))
+					}
+				}()
+				if deep {
+					e.DeepCopy()
+				} else {
+					e.Copy()
+				}
+			}()
+			done := make(chan struct{})
+			go func() { e.Define("y", int64(1)); close(done) }()
+			select {
+			case <-done:
+			case <-time.After(5 * time.Second):
+				bad(fmt.Sprintf("after a copy that failed, Define on the scope never returns: its lock is still held (deep=%v)", deep))
 			}
 		})
 	}
